@@ -16,9 +16,63 @@ type rtr_ev =
 | RtrWriteS of nat * coq_N list
 | RtrCloseS of nat
 | RtrConnector of bool
+| RtrInband of rt_dir * coq_N list
+| RtrHsRead of bool * bool * bool
 | RtrReset
 
-type rtr_state = rt_state * bool
+(** val rtr_tok_act : coq_N list **)
+
+let rtr_tok_act =
+  (Npos (Coq_xI (Coq_xI (Coq_xO (Coq_xO (Coq_xO Coq_xH)))))) :: ((Npos
+    (Coq_xI (Coq_xO (Coq_xO (Coq_xO (Coq_xO (Coq_xO Coq_xH))))))) :: ((Npos
+    (Coq_xI (Coq_xI (Coq_xO (Coq_xO (Coq_xO (Coq_xO Coq_xH))))))) :: ((Npos
+    (Coq_xO (Coq_xO (Coq_xI (Coq_xO (Coq_xI (Coq_xO Coq_xH))))))) :: ((Npos
+    (Coq_xO (Coq_xI (Coq_xO Coq_xH)))) :: []))))
+
+(** val rtr_tok_cfg : coq_N list **)
+
+let rtr_tok_cfg =
+  (Npos (Coq_xI (Coq_xI (Coq_xO (Coq_xO (Coq_xO Coq_xH)))))) :: ((Npos
+    (Coq_xI (Coq_xI (Coq_xO (Coq_xO (Coq_xO (Coq_xO Coq_xH))))))) :: ((Npos
+    (Coq_xO (Coq_xI (Coq_xI (Coq_xO (Coq_xO (Coq_xO Coq_xH))))))) :: ((Npos
+    (Coq_xI (Coq_xI (Coq_xI (Coq_xO (Coq_xO (Coq_xO Coq_xH))))))) :: ((Npos
+    (Coq_xO (Coq_xI (Coq_xO Coq_xH)))) :: []))))
+
+(** val rtr_tok_fail : coq_N list **)
+
+let rtr_tok_fail =
+  (Npos (Coq_xI (Coq_xI (Coq_xO (Coq_xO (Coq_xO Coq_xH)))))) :: ((Npos
+    (Coq_xO (Coq_xI (Coq_xI (Coq_xO (Coq_xO (Coq_xO Coq_xH))))))) :: ((Npos
+    (Coq_xI (Coq_xO (Coq_xO (Coq_xO (Coq_xO (Coq_xO Coq_xH))))))) :: ((Npos
+    (Coq_xI (Coq_xO (Coq_xO (Coq_xI (Coq_xO (Coq_xO Coq_xH))))))) :: ((Npos
+    (Coq_xO (Coq_xO (Coq_xI (Coq_xI (Coq_xO (Coq_xO Coq_xH))))))) :: ((Npos
+    (Coq_xO (Coq_xI (Coq_xO Coq_xH)))) :: [])))))
+
+(** val rtr_line_len : coq_N list -> nat option **)
+
+let rec rtr_line_len = function
+| [] -> None
+| b :: r ->
+  if N.eqb b (Npos (Coq_xO (Coq_xI (Coq_xO Coq_xH))))
+  then Some (S O)
+  else (match rtr_line_len r with
+        | Some n -> Some (S n)
+        | None -> None)
+
+(** val rtr_hs_auto :
+    coq_N list -> coq_N list -> coq_N list -> coq_N list -> rt_state ->
+    rt_state option **)
+
+let rtr_hs_auto ch1 sh4 ch2 sh3 s =
+  match s.r_x.x_pc with
+  | HsRecvAct -> None
+  | HsSendAct _ -> rt_step ch1 sh4 ch2 sh3 s (RLHs rtr_tok_act)
+  | HsRecvCfg -> None
+  | HsSendCfg -> rt_step ch1 sh4 ch2 sh3 s (RLHs rtr_tok_cfg)
+  | HsErr1 -> rt_step ch1 sh4 ch2 sh3 s (RLHs rtr_tok_fail)
+  | HsErr2 -> rt_step ch1 sh4 ch2 sh3 s (RLHs rtr_tok_fail)
+  | HsIdle -> None
+  | _ -> rt_step ch1 sh4 ch2 sh3 s (RLHs [])
 
 (** val rtr_pending : rt_state -> nat list **)
 
@@ -40,19 +94,18 @@ let rtr_handler_ready s c =
   | None -> false
 
 (** val rtr_pump_try :
-    coq_N list -> coq_N list -> coq_N list -> coq_N list -> bool -> rt_state
-    -> nat -> rt_dir -> rt_state option **)
+    coq_N list -> coq_N list -> coq_N list -> coq_N list -> rt_state -> nat
+    -> rt_dir -> rt_state option **)
 
-let rtr_pump_try ch1 sh4 ch2 sh3 hs s c d =
+let rtr_pump_try ch1 sh4 ch2 sh3 s c d =
   match nth_error s.r_pairs c with
   | Some p ->
     (match p.p_br with
-     | Some b ->
+     | Some _ ->
        (match rt_src_end d p with
         | Some e ->
           (match rt_step ch1 sh4 ch2 sh3 s (RLPump (c, d,
-                   (Nat.min (length e.e_rx) (N.to_nat rtunnel_pump_bufsize)),
-                   ((&&) hs b.b_relay))) with
+                   (Nat.min (length e.e_rx) (N.to_nat rtunnel_pump_bufsize)))) with
            | Some s' -> Some s'
            | None ->
              (match rt_step ch1 sh4 ch2 sh3 s (RLPumpEof (c, d)) with
@@ -63,10 +116,10 @@ let rtr_pump_try ch1 sh4 ch2 sh3 hs s c d =
   | None -> None
 
 (** val rtr_once :
-    coq_N list -> coq_N list -> coq_N list -> coq_N list -> bool -> rt_state
-    -> rt_state option **)
+    coq_N list -> coq_N list -> coq_N list -> coq_N list -> rt_state ->
+    rt_state option **)
 
-let rtr_once ch1 sh4 ch2 sh3 hs s =
+let rtr_once ch1 sh4 ch2 sh3 s =
   let idx = seq O (length s.r_pairs) in
   (match rt_step ch1 sh4 ch2 sh3 s RLCheck with
    | Some s' -> Some s'
@@ -85,28 +138,32 @@ let rtr_once ch1 sh4 ch2 sh3 hs s =
                     else None) idx with
             | Some s' -> Some s'
             | None ->
-              (match first_some (fun c ->
-                       match rt_step ch1 sh4 ch2 sh3 s (RLWriter (c, RdIn)) with
-                       | Some s' -> Some s'
-                       | None ->
-                         rt_step ch1 sh4 ch2 sh3 s (RLWriter (c, RdOut))) idx with
+              (match rtr_hs_auto ch1 sh4 ch2 sh3 s with
                | Some s' -> Some s'
                | None ->
-                 first_some (fun c ->
-                   match rtr_pump_try ch1 sh4 ch2 sh3 hs s c RdIn with
-                   | Some s' -> Some s'
-                   | None -> rtr_pump_try ch1 sh4 ch2 sh3 hs s c RdOut) idx)))))
+                 (match first_some (fun c ->
+                          match rt_step ch1 sh4 ch2 sh3 s (RLWriter (c, RdIn)) with
+                          | Some s' -> Some s'
+                          | None ->
+                            rt_step ch1 sh4 ch2 sh3 s (RLWriter (c, RdOut)))
+                          idx with
+                  | Some s' -> Some s'
+                  | None ->
+                    first_some (fun c ->
+                      match rtr_pump_try ch1 sh4 ch2 sh3 s c RdIn with
+                      | Some s' -> Some s'
+                      | None -> rtr_pump_try ch1 sh4 ch2 sh3 s c RdOut) idx))))))
 
 (** val rtr_settle :
-    nat -> coq_N list -> coq_N list -> coq_N list -> coq_N list -> bool ->
-    rt_state -> rt_state **)
+    nat -> coq_N list -> coq_N list -> coq_N list -> coq_N list -> rt_state
+    -> rt_state **)
 
-let rec rtr_settle fuel ch1 sh4 ch2 sh3 hs s =
+let rec rtr_settle fuel ch1 sh4 ch2 sh3 s =
   match fuel with
   | O -> s
   | S f ->
-    (match rtr_once ch1 sh4 ch2 sh3 hs s with
-     | Some s' -> rtr_settle f ch1 sh4 ch2 sh3 hs s'
+    (match rtr_once ch1 sh4 ch2 sh3 s with
+     | Some s' -> rtr_settle f ch1 sh4 ch2 sh3 s'
      | None -> s)
 
 (** val rtr_push_c : nat -> pev -> rt_state -> rt_state **)
@@ -137,12 +194,16 @@ let rtr_or s = function
 
 let rtr_fuel s =
   add
-    (add (S (S (S (S (S (S (S (S (S (S (S (S (S (S (S (S (S (S (S (S (S (S (S
-      (S (S (S (S (S (S (S (S (S (S (S (S (S (S (S (S (S
-      O))))))))))))))))))))))))))))))))))))))))
-      (mul (S (S (S (S (S (S (S (S (S (S (S (S (S (S (S (S (S (S (S (S (S (S
-        (S (S (S (S (S (S (S (S (S (S (S (S (S (S (S (S (S (S
-        O)))))))))))))))))))))))))))))))))))))))) (length s.r_pairs)))
+    (add
+      (add (S (S (S (S (S (S (S (S (S (S (S (S (S (S (S (S (S (S (S (S (S (S
+        (S (S (S (S (S (S (S (S (S (S (S (S (S (S (S (S (S (S (S (S (S (S (S
+        (S (S (S (S (S (S (S (S (S (S (S (S (S (S (S
+        O))))))))))))))))))))))))))))))))))))))))))))))))))))))))))))
+        (mul (S (S (S (S (S (S (S (S (S (S (S (S (S (S (S (S (S (S (S (S (S
+          (S (S (S (S (S (S (S (S (S (S (S (S (S (S (S (S (S (S (S
+          O)))))))))))))))))))))))))))))))))))))))) (length s.r_pairs)))
+      (mul (S (S (S (S O))))
+        (add (length s.r_x.x_bufin) (length s.r_x.x_bufout))))
     (mul (S (S (S (S O))))
       (length
         (concat
@@ -152,42 +213,52 @@ let rtr_fuel s =
                | Some e -> e.e_rx
                | None -> [])) s.r_pairs))))
 
-(** val rtr_apply :
-    coq_N list -> coq_N list -> coq_N list -> coq_N list -> rtr_state ->
-    rtr_ev -> rtr_state **)
+(** val rtr_hs_read :
+    coq_N list -> coq_N list -> coq_N list -> coq_N list -> rt_state -> bool
+    -> bool -> bool -> rt_state **)
 
-let rtr_apply ch1 sh4 ch2 sh3 st e =
-  let (s, hs) = st in
-  let step = rt_step ch1 sh4 ch2 sh3 in
-  let (s1, hs1) =
-    match e with
-    | RtrConnect -> ((rtr_or s (step s (RLConnect []))), hs)
-    | RtrWriteC (c, bs) ->
-      let s0 = rtr_push_c c (PWrite bs) s in
-      ((rtr_or s0 (step s0 (RLPeerC c))), hs)
-    | RtrCloseC c ->
-      let s0 = rtr_push_c c PClose s in
-      ((rtr_or s0 (step s0 (RLPeerC c))), hs)
-    | RtrDial (c, ok) ->
-      ((rtr_or s
-         (step s (RLHandler (c, (if ok then Some [] else None), false)))), hs)
-    | RtrWriteS (c, bs) ->
-      let s0 = rtr_push_s c (PWrite bs) s in
-      ((rtr_or s0 (step s0 (RLPeerS c))), hs)
-    | RtrCloseS c ->
-      let s0 = rtr_push_s c PClose s in
-      ((rtr_or s0 (step s0 (RLPeerS c))), hs)
-    | RtrConnector v -> ((rtr_or s (step s (RLSetConnector v))), hs)
-    | RtrReset -> ((rtr_or s (step s RLReset)), false)
+let rtr_hs_read ch1 sh4 ch2 sh3 s ok tun conf =
+  let buf =
+    match s.r_x.x_pc with
+    | HsRecvCfg -> s.r_x.x_bufout
+    | _ -> s.r_x.x_bufin
   in
-  ((rtr_settle (rtr_fuel s1) ch1 sh4 ch2 sh3 hs1 s1), hs1)
+  let all = concat (map snd buf) in
+  let k = match rtr_line_len all with
+          | Some n -> n
+          | None -> length all in
+  rtr_or s (rt_step ch1 sh4 ch2 sh3 s (RLHsRead (k, ok, tun, conf)))
+
+(** val rtr_apply :
+    coq_N list -> coq_N list -> coq_N list -> coq_N list -> rt_state ->
+    rtr_ev -> rt_state **)
+
+let rtr_apply ch1 sh4 ch2 sh3 s e =
+  let step = rt_step ch1 sh4 ch2 sh3 in
+  let s1 =
+    match e with
+    | RtrConnect -> rtr_or s (step s (RLConnect []))
+    | RtrWriteC (c, bs) ->
+      let s0 = rtr_push_c c (PWrite bs) s in rtr_or s0 (step s0 (RLPeerC c))
+    | RtrCloseC c ->
+      let s0 = rtr_push_c c PClose s in rtr_or s0 (step s0 (RLPeerC c))
+    | RtrDial (c, ok) ->
+      rtr_or s (step s (RLHandler (c, (if ok then Some [] else None), false)))
+    | RtrWriteS (c, bs) ->
+      let s0 = rtr_push_s c (PWrite bs) s in rtr_or s0 (step s0 (RLPeerS c))
+    | RtrCloseS c ->
+      let s0 = rtr_push_s c PClose s in rtr_or s0 (step s0 (RLPeerS c))
+    | RtrConnector v -> rtr_or s (step s (RLSetConnector v))
+    | RtrInband (d, bs) -> rtr_or s (step s (RLInband (d, bs)))
+    | RtrHsRead (ok, tun, conf) -> rtr_hs_read ch1 sh4 ch2 sh3 s ok tun conf
+    | RtrReset -> rtr_or s (step s RLReset)
+  in
+  rtr_settle (rtr_fuel s1) ch1 sh4 ch2 sh3 s1
 
 (** val rtr_replay :
     coq_N list -> coq_Z -> coq_Z -> rtr_ev list -> rt_state **)
 
 let rtr_replay uid sport rport evs =
-  fst
-    (fold_left
-      (rtr_apply (client_hello uid rport) (server_hello uid rport)
-        (client_hello uid sport) (server_hello uid sport)) evs (rt_init,
-      true))
+  fold_left
+    (rtr_apply (client_hello uid rport) (server_hello uid rport)
+      (client_hello uid sport) (server_hello uid sport)) evs rt_init
